@@ -131,3 +131,49 @@ _ERRNO_RETRIES = VSet(z3.Const("ERRNO_RETRIES", z3.ArraySort(IntS, BoolS)), z3.C
 R.glob("Pyro5.socketutil.ERRNO_RETRIES", _ERRNO_RETRIES, "the retryable errno list: an arbitrary fixed set of ints")
 R.glob("Pyro5.socketutil.USE_MSG_WAITALL", VBool(z3.Const("USE_MSG_WAITALL", BoolS)), "platform flag: arbitrary fixed Bool")
 R.glob("socket.MSG_WAITALL", VInt(z3.Const("MSG_WAITALL", IntS)), "flag constant")
+
+
+def _sock_close(self, E, st, sock, args, kw):
+    st.event("sock.close", sock)
+    st.set(sock, "closed", VBool(True))
+    return [Res(st, NONE)]
+
+
+def _sock_shutdown(self, E, st, sock, args, kw):
+    s2 = st.fork()
+    return [Res(st, NONE), Res(s2, exc=_os_error(E, s2, sock))]
+
+
+def _sock_settimeout(self, E, st, sock, args, kw):
+    return [Res(st, NONE)]
+
+
+def _sock_getpeername(self, E, st, sock, args, kw):
+    from specs.opaque import may_raise   # noqa
+    s2 = st.fork()
+    return [Res(st, VOpaque(fresh("peername", U))), Res(s2, exc=_os_error(E, s2, sock))]
+
+
+def _sock_accept(self, E, st, sock, args, kw):
+    """listening socket: returns (client socket, address) | raises socket.timeout | raises socket.error"""
+    csock = new_socket(E, st, fresh_name("csock"))
+    s2 = st.fork()
+    s3 = st.fork()
+    return [Res(st, VTuple([csock, VOpaque(fresh("caddr", U))])),
+            Res(s2, exc=E.new_exc(s2, "builtins.TimeoutError", [VStr("timed out")])),
+            Res(s3, exc=_os_error(E, s3, sock))]
+
+
+SocketModel.methods.update({"close": _sock_close, "shutdown": _sock_shutdown, "settimeout": _sock_settimeout,
+                            "getpeername": _sock_getpeername, "accept": _sock_accept})
+R.glob("socket.SHUT_RDWR", VInt(2), "constant")
+R.glob("Pyro5.socketutil.ERRNO_BADF", VSet(z3.Const("ERRNO_BADF", z3.ArraySort(IntS, BoolS)), z3.Const("ERRNO_BADF_card", IntS), IntS), "errno list: arbitrary fixed set")
+R.glob("Pyro5.socketutil.ERRNO_ENOTSOCK", VSet(z3.Const("ERRNO_ENOTSOCK", z3.ArraySort(IntS, BoolS)), z3.Const("ERRNO_ENOTSOCK_card", IntS), IntS), "errno list: arbitrary fixed set")
+
+
+@R.spec("Pyro5.socketutil.SocketConnection", doc="SocketConnection(sock): wrapper object around the socket with empty session-instance and resource tables")
+def new_socket_connection(E, st, args, kw):
+    from specs.opaque import new_odict
+    conn = st.new_obj("Pyro5.socketutil.SocketConnection", sock=args[0], keep_open=VBool(False))
+    st.set(conn, "pyroInstances", new_odict(st, fresh_name("session_instances")))
+    return [Res(st, conn)]
